@@ -55,7 +55,8 @@ def main():
     if not ok:
         return 3
     # 2. store
-    dest = os.path.join(ROOT, 'seeded', f'{props[0]}_{mut}')
+    rnd = os.environ.get('SEED_ROUND', '')
+    dest = os.path.join(ROOT, 'seeded', f'{props[0]}_{rnd}{mut}')
     os.makedirs(dest, exist_ok=True)
     old = os.path.join(dest, 'meta.json')
     if os.path.exists(old):
